@@ -51,8 +51,8 @@ def families(tier):
                                          for K in range(7, (13 if q else 17)) for g in (0, 1)), 1),
         # derived objects as receivers: every chord diagram of 3-4 stems of lengths {1,2} (isolated pairs crossing longer stems - removing them changes the
         # levels of what remains), short histories over the derivations and the answers that depend on the level assignment
-        ("D-derivations", lambda: ({**c, "depth": 2 if q else 3, "ops": ["without_isolated", "without_pseudoknots", "dot_bracket", "elements"] if not q else ["without_isolated", "without_pseudoknots", "dot_bracket"]}
-                                   for c in enum2d.D(4, kmin=3, gapvals=(0,) if q else (0, 1))), 1),
+        ("D-derivations", lambda: ({**c, "depth": 2, "ops": ["without_isolated", "without_pseudoknots", "dot_bracket", "elements"] if not q else ["without_isolated", "without_pseudoknots", "dot_bracket"]}
+                                   for c in enum2d.D(4, kmin=3, gapvals=(0,) if q else (0, 1))), 1),  # thorough: both gap values and 'elements'; depth 3 there cost most of an hour
     ]
 
 
